@@ -32,6 +32,20 @@ Ltac unf_py :=
          py_fire_timed, py_fire, py_is_empty, py_first, py_the, py_is_some,
          py_worker_is_none, py_finalized, py_strategy_code, gbind, gtry, gfinally, sim_of in *.
 
+(* the proofs below do not follow the shape of the generated text: they normalise the pure tests, split on the
+   atoms the tests are made of (run state, replication state, replication, worker, comparisons of numbers) and
+   finish by computation, so that guard clauses / nested ifs, negated or de-Morganed tests, hoisted locals,
+   conditional expressions and inlined helpers all check with the same script *)
+Ltac bsimpl := cbn [negb andb orb py_replst_eqb py_runst_eqb fst snd] in *.
+Ltac znorm := rewrite ?Z.geb_leb, ?Z.gtb_ltb in *.
+Ltac zcases :=
+  repeat match goal with
+         | |- context [Z.leb ?a ?b] => destruct (Z.leb_spec a b)
+         | |- context [Z.ltb ?a ?b] => destruct (Z.ltb_spec a b)
+         | |- context [Z.eqb ?a ?b] => destruct (Z.eqb_spec a b)
+         end.
+Ltac zfin := znorm; zcases; bsimpl; try reflexivity; try lia; try contradiction.
+
 (* ====================================================================== *)
 (* the pure tests                                                          *)
 (* ====================================================================== *)
@@ -39,11 +53,16 @@ Lemma gen_is_starting_or_running_eq s : gen_Simulator_is_starting_or_running s =
 Proof. unfold gen_Simulator_is_starting_or_running, running. destruct (rs s); reflexivity. Qed.
 
 Lemma gen_is_stopping_or_stopped_eq s : gen_Simulator_is_stopping_or_stopped s = negb (running s).
-Proof. unfold gen_Simulator_is_stopping_or_stopped. rewrite gen_is_starting_or_running_eq. reflexivity. Qed.
+Proof.
+  unfold gen_Simulator_is_stopping_or_stopped, gen_Simulator_is_starting_or_running, running. destruct (rs s); reflexivity.
+Qed.
+
 
 Lemma gen_is_initialized_eq s :
   gen_Simulator_is_initialized s = match rs s with RNotInit => false | _ => true end.
 Proof. unfold gen_Simulator_is_initialized. destruct (rs s); reflexivity. Qed.
+
+Ltac ntests := rewrite ?gen_is_stopping_or_stopped_eq, ?gen_is_starting_or_running_eq, ?gen_is_initialized_eq in *.
 
 (* ====================================================================== *)
 (* scheduling and cancelling                                               *)
@@ -56,32 +75,22 @@ Lemma gen_schedule_event_eq w s e :
   gen_DEVSSimulator_schedule_event w s e =
   if ev_time e <? clock s then GExc EDSOL w s else GRet (REv e) w (set_pend (ins e (pend s)) s).
 Proof.
-  unfold gen_DEVSSimulator_schedule_event. unf_py. rewrite Z.geb_leb.
-  destruct (Z.leb_spec (clock s) (ev_time e)), (Z.ltb_spec (ev_time e) (clock s)); try lia; reflexivity.
+  unfold gen_DEVSSimulator_schedule_event. unf_py. cbv zeta. zfin.
 Qed.
 
 Theorem gen_sched_eq s m prio h : gen_sched s m prio h = do_sched s m prio h.
 Proof.
-  unfold gen_sched, do_sched, sched_time.
-  destruct m as [|[d|]|[t|]].
-  - unfold gen_DEVSSimulator_schedule_event_now. unf_py. rewrite gen_schedule_event_eq. ssimpl. cbn [ev_time].
-    rewrite Z.ltb_irrefl. reflexivity.
-  - unfold gen_DEVSSimulator_schedule_event_rel. unf_py. rewrite Z.sub_diag, Z.geb_leb.
-    destruct (Z.leb_spec 0 d), (Z.ltb_spec d 0); try lia; cbn [negb]; [|reflexivity].
-    rewrite gen_schedule_event_eq. ssimpl. cbn [ev_time].
-    destruct (Z.ltb_spec (clock s + d) (clock s)); try lia. reflexivity.
-  - unfold gen_DEVSSimulator_schedule_event_rel. unf_py. reflexivity.
-  - unfold gen_DEVSSimulator_schedule_event_abs. unf_py. rewrite Z.geb_leb.
-    destruct (Z.leb_spec (clock s) t), (Z.ltb_spec t (clock s)); try lia; cbn [negb]; [|reflexivity].
-    rewrite gen_schedule_event_eq. ssimpl. cbn [ev_time].
-    destruct (Z.ltb_spec t (clock s)); try lia. reflexivity.
-  - unfold gen_DEVSSimulator_schedule_event_abs. unf_py. reflexivity.
+  unfold gen_sched, do_sched, sched_time,
+    gen_DEVSSimulator_schedule_event_now, gen_DEVSSimulator_schedule_event_rel, gen_DEVSSimulator_schedule_event_abs.
+  destruct m as [|[d|]|[t|]]; unf_py; cbv zeta; rewrite ?Z.sub_diag; rewrite ?gen_schedule_event_eq; ssimpl; cbn [ev_time];
+    try reflexivity; zfin.
 Qed.
 
 Theorem gen_cancel_event_eq w s k e :
   nth_error (created s) k = Some e -> gen_DEVSSimulator_cancel_event w s e = GRet RNone w (do_cancel s k).
 Proof.
-  intros H. unfold gen_DEVSSimulator_cancel_event, do_cancel. rewrite H. unf_py. reflexivity.
+  intros H. unfold gen_DEVSSimulator_cancel_event, do_cancel. rewrite H. unf_py. cbv zeta.
+  destruct (ev_mem e (pend s)); reflexivity.
 Qed.
 
 Theorem gen_cancel_eq s k : gen_cancel s k = do_cancel s k.
@@ -98,18 +107,18 @@ Theorem gen_stop_eq w s :
   gen_Simulator_stop w s =
   if running s then GRet RNone w (set_rs RStopping (emit NStopping s)) else GExc EDSOL w s.
 Proof.
-  unfold gen_Simulator_stop. rewrite gen_is_stopping_or_stopped_eq.
-  destruct (running s); cbn [negb]; reflexivity.
+  unfold gen_Simulator_stop. ntests. unf_py. cbv zeta.
+  destruct (running s); bsimpl; reflexivity.
 Qed.
 
 Theorem gen_warmup_eq w s :
   gen_Simulator_warmup w s = GRet RNone w (set_obs (ObsWarm (clock s) :: obs s) (emit (NWarmup (clock s)) s)).
-Proof. reflexivity. Qed.
+Proof. unfold gen_Simulator_warmup. unf_py. reflexivity. Qed.
 
 Theorem gen_cleanup_eq w s :
   gen_Simulator_cleanup w s = GRet RNone (match worker s with WNone => w | _ => false end) (do_cleanup s).
 Proof.
-  unfold gen_Simulator_cleanup, do_cleanup, gen_Simulator__stop_impl, gen_SimulatorWorkerThread_cleanup. unf_py.
+  unfold gen_Simulator_cleanup, do_cleanup. unf_py. cbv zeta.
   destruct s as [c pd n r q b i st wk rp cr ca tr ou nt ob fl]. ssimpl.
   destruct wk; reflexivity.
 Qed.
@@ -179,31 +188,27 @@ Theorem gen_step_impl_eq p w s : rep s <> None ->
                    if snd x then GExc EDSOL w (fst x) else GRet RNone w (fst x)
   end.
 Proof.
-  intros Hr. unfold gen_DEVSSimulator__step_impl. unf_py. rewrite opt_end_eq.
+  intros Hr. unfold gen_DEVSSimulator__step_impl, end_time. unf_py.
   destruct (rep s) as [rp|] eqn:Er; [clear Hr|contradiction].
-  destruct (pend s) as [|e r] eqn:Ep; cbn; [reflexivity|].
-  destruct (ev_time e >? end_time s); cbn; [reflexivity|].
-  rewrite py_execute_eq.
-  replace (set_pend (tl (pend s)) s) with (set_pend r s) by (rewrite Ep; reflexivity).
-  cbv zeta. destruct (snd _); reflexivity.
+  destruct (pend s) as [|e r] eqn:Ep; cbn [hd_error tl py_opt_end]; ssimpl; cbv zeta; rewrite ?py_execute_eq;
+    ssimpl; rewrite ?Er; cbn [py_opt_end]; znorm; zcases; bsimpl; try reflexivity; try lia;
+    destruct (snd _); reflexivity.
 Qed.
 
 Theorem gen_step_eq p w s : (rs s <> RNotInit -> rep s <> None) ->
   gen_Simulator_step p w s = gres_of w (do_step p s).
 Proof.
-  intros Hwf. unfold gen_Simulator_step, do_step, step_checks.
-  rewrite gen_is_starting_or_running_eq, gen_is_initialized_eq.
-  (* the refusals, in whatever order the source has them *)
-  destruct (running s) eqn:Erun; destruct (rs s) eqn:Ers; destruct (ps s) eqn:Eps;
-    cbn [negb andb orb py_replst_eqb]; try reflexivity;
+  intros Hwf. unfold gen_Simulator_step, do_step, step_checks, end_time. ntests. unf_py. cbv zeta.
+  (* the refusals, in whatever order and form the source has them *)
+  destruct (running s) eqn:Erun; destruct (rs s) eqn:Ers; destruct (ps s) eqn:Eps; bsimpl; try reflexivity;
   (assert (Hr : rep s <> None) by (apply Hwf; discriminate));
-  (unf_py; rewrite ?opt_end_eq;
-   (destruct (rep s) as [rp|] eqn:Er; [|contradiction]);
-   rewrite Z.gtb_ltb, Z.leb_antisym; destruct (end_time s <? clock s); cbn [negb]; try reflexivity;
-   rewrite gen_step_impl_eq by (ssimpl; congruence); ssimpl;
-   unfold step_event, gres_of; cbn [fst snd];
+  (destruct (rep s) as [rp|] eqn:Er; [|contradiction]); cbn [py_opt_end]; bsimpl;
+  znorm; zcases; bsimpl; try reflexivity; try lia;
+  (* admitted: START_REPLICATION on first use, START, the event, STOP *)
+  (rewrite ?gen_step_impl_eq by (ssimpl; congruence); ssimpl; rewrite ?Eps; bsimpl; ssimpl;
+   unfold step_event, gres_of, end_time; ssimpl; rewrite ?Er; cbn [fst snd];
    destruct (pend s) as [|e r]; try reflexivity;
-   destruct (ev_time e >? _); try reflexivity; cbv zeta;
+   znorm; zcases; try reflexivity; try lia; cbv zeta;
    destruct (exec_event InStep p _ e) as [s3 [|]]; reflexivity).
 Qed.
 
@@ -222,30 +227,19 @@ Proof. reflexivity. Qed.
 Theorem gen_run_loop_eq p : forall fuel w s, rep s <> None ->
   gen_DEVSSimulator__run_loop fuel p w s = GRet RNone w (run_loop fuel p s).
 Proof.
-  induction fuel as [|f IH]; intros w s Hr; cbn [gen_DEVSSimulator__run_loop run_loop];
-    rewrite gen_is_stopping_or_stopped_eq, negb_involutive.
-  - destruct (running s); reflexivity.
-  - destruct (running s); [|reflexivity].
-    destruct (pend s) as [|e r] eqn:Ep.
-    + unf_py. cbn. rewrite orb_true_r.
-      destruct (rep s) as [rp|] eqn:Er; [|contradiction]. cbn.
-      rewrite <- gen_stop_at_bound_eq. ssimpl. rewrite Er. reflexivity.
-    + unf_py. cbn [hd_error negb orb].
-      change ((ev_time e >? bound s) || (ev_time e =? bound s) && negb (incl s) || false)
-        with (beyond s e || false). rewrite orb_false_r.
-      destruct (beyond s e).
-      * destruct (rep s) as [rp|] eqn:Er; [|contradiction]. cbn.
-        rewrite <- gen_stop_at_bound_eq. ssimpl. rewrite Er. reflexivity.
-      * pose proof (take_event_rep p s e r Ep) as Hrep.
-        replace (set_pend (tl (pend s)) s) with (set_pend r s) by (rewrite Ep; reflexivity).
-        cbn [negb]. unfold take_event in *. ssimpl.
-        rewrite py_execute_eq.
-        destruct (ev_time e =? clock s); cbn [negb];
-        (match goal with |- context [exec_event InRun p ?X e] =>
-           destruct (exec_event InRun p X e) as [s3 failed] eqn:Ex end);
-        cbn [fst snd] in *; destruct failed; cbn [exn_is_exception];
-        try (apply IH; congruence);
-        (destruct (strat s3); cbn; apply IH; ssimpl; congruence).
+  induction fuel as [|f IH]; intros w s Hr; cbn [gen_DEVSSimulator__run_loop run_loop]; ntests;
+    destruct (running s) eqn:Erun; bsimpl; try reflexivity.
+  destruct (rep s) as [rp|] eqn:Er; [|contradiction].
+  unfold stop_at_bound, beyond, end_time, take_event. rewrite Er. unf_py.
+  destruct (pend s) as [|e r] eqn:Ep; cbn [hd_error tl py_opt_end]; ssimpl; cbv zeta; rewrite ?py_execute_eq;
+    ssimpl; rewrite ?Er; cbn [py_opt_end];
+    destruct (incl s); znorm; zcases; bsimpl; try reflexivity; try lia;
+    (* an event is taken: the handler leaves the replication alone, the loop goes on *)
+    (match goal with |- context [exec_event InRun p ?X e] =>
+       pose proof (exec_event_rep InRun p X e) as (Hrp & _ & _);
+       destruct (exec_event InRun p X e) as [s3 failed] end);
+    cbn [fst snd] in *; ssimpl;
+    (destruct failed; cbn [exn_is_exception]; [destruct (strat s3); cbn|]; apply IH; ssimpl; congruence).
 Qed.
 
 Theorem gen_run_eq p fuel w s : rep s <> None ->
@@ -258,13 +252,11 @@ Proof. apply gen_run_loop_eq. Qed.
 Theorem gen_worker_run_eq fuel p w s : rep s <> None ->
   gen_SimulatorWorkerThread_run fuel p w s = GRet RNone w (worker_run fuel p s).
 Proof.
-  intros Hr. unfold gen_SimulatorWorkerThread_run, worker_run. unf_py.
-  destruct (worker s); cbn [negb]; try reflexivity.
-  destruct (ps s) eqn:Eps; cbn [py_replst_eqb negb];
-    try (rewrite gen_run_eq by (ssimpl; exact Hr); cbn [exn_is_exception];
-         unfold worker_ending; ssimpl;
-         destruct (ps (run_loop fuel p _)); reflexivity).
-  unfold worker_ending. rewrite Eps. reflexivity.
+  intros Hr. unfold gen_SimulatorWorkerThread_run, worker_run, worker_ending. unf_py. cbv zeta.
+  destruct (worker s); bsimpl; try reflexivity;
+  destruct (ps s) eqn:Eps; bsimpl; ssimpl; rewrite ?Eps; try reflexivity;
+    (rewrite gen_run_eq by (ssimpl; exact Hr); cbn [exn_is_exception]; ssimpl;
+     destruct (ps (run_loop fuel p _)); reflexivity).
 Qed.
 
 Lemma gen_worker_eq fuel p s : rep s <> None -> gen_worker fuel p s = worker_run fuel p s.
@@ -306,18 +298,15 @@ Theorem gen_start_impl_eq w s t i : (rs s <> RNotInit -> worker s <> WNone) ->
     end
   else GExc EDSOL w s.
 Proof.
-  intros Hw. unfold gen_Simulator__start_impl, start_checks, start_prepared.
-  rewrite gen_is_starting_or_running_eq, gen_is_initialized_eq.
-  unf_py. rewrite ?opt_end_eq.
-  (* the refusals, in whatever order the source has them *)
+  intros Hw. unfold gen_Simulator__start_impl, start_checks, start_prepared, end_time. ntests. unf_py. cbv zeta.
+  (* the refusals, in whatever order and form the source has them *)
   destruct (running s) eqn:Erun; destruct (rep s) as [rp|] eqn:Er; destruct (rs s) eqn:Ers; destruct (ps s) eqn:Eps;
-    cbn [negb andb orb py_replst_eqb]; try reflexivity;
+    cbn [py_opt_end]; bsimpl; try reflexivity;
   (assert (Hk : worker s <> WNone) by (apply Hw; discriminate));
-  (rewrite Z.gtb_ltb, Z.leb_antisym; destruct (end_time s <? clock s); cbn [negb]; try reflexivity;
-   (destruct t as [bz|]; [|reflexivity]);
-   rewrite Z.geb_leb, Z.ltb_antisym; destruct (clock s <=? bz); cbn [negb]; try reflexivity;
-   rewrite Z.gtb_ltb; destruct (end_time s <? bz); ssimpl; rewrite ?Eps; cbn [py_replst_eqb]; ssimpl;
-   destruct (worker s); try contradiction; reflexivity).
+  (destruct t as [bz|]; znorm; zcases; bsimpl; try reflexivity; try lia;
+   ssimpl; rewrite ?Eps; bsimpl; ssimpl; destruct (worker s); try contradiction; try reflexivity;
+   (* capped at the end, or the end itself *)
+   repeat f_equal; lia).
 Qed.
 
 Lemma start_prepared_rep s bz i : rep (start_prepared s bz i) = rep s.
@@ -351,21 +340,21 @@ Proof. destruct r; reflexivity. Qed.
 Theorem gen_start_eq fuel p s : (rs s <> RNotInit -> worker s <> WNone) ->
   gen_settle fuel p (gen_Simulator_start false s) = do_cmd fuel p s CStart.
 Proof.
-  intros Hw. unfold gen_Simulator_start. cbn [do_cmd]. unfold py_is_some.
-  destruct (rep s) as [rp|] eqn:Er; cbn [negb py_opt_end]; [|reflexivity].
-  rewrite gbind_ret, settle_norm. apply settle_start_eq. exact Hw.
+  intros Hw. unfold gen_Simulator_start. cbn [do_cmd]. unfold py_is_some. cbv zeta.
+  destruct (rep s) as [rp|] eqn:Er; bsimpl; cbn [py_opt_end]; [|reflexivity].
+  rewrite ?gbind_ret, ?settle_norm. apply settle_start_eq. exact Hw.
 Qed.
 
 Theorem gen_run_up_to_eq fuel p s t : (rs s <> RNotInit -> worker s <> WNone) ->
   gen_settle fuel p (gen_Simulator_run_up_to false s t) = do_cmd fuel p s (CRunUpTo t).
 Proof.
-  intros Hw. unfold gen_Simulator_run_up_to. cbn [do_cmd]. rewrite gbind_ret, settle_norm. apply settle_start_eq. exact Hw.
+  intros Hw. unfold gen_Simulator_run_up_to. cbn [do_cmd]. cbv zeta. rewrite ?gbind_ret, ?settle_norm. apply settle_start_eq. exact Hw.
 Qed.
 
 Theorem gen_run_up_to_including_eq fuel p s t : (rs s <> RNotInit -> worker s <> WNone) ->
   gen_settle fuel p (gen_Simulator_run_up_to_including false s t) = do_cmd fuel p s (CRunUpToIncl t).
 Proof.
-  intros Hw. unfold gen_Simulator_run_up_to_including. cbn [do_cmd]. rewrite gbind_ret, settle_norm. apply settle_start_eq. exact Hw.
+  intros Hw. unfold gen_Simulator_run_up_to_including. cbn [do_cmd]. cbv zeta. rewrite ?gbind_ret, ?settle_norm. apply settle_start_eq. exact Hw.
 Qed.
 
 (* ====================================================================== *)
@@ -374,14 +363,13 @@ Qed.
 Theorem gen_end_replication_eq fuel p s : (ps s = PStarted -> rep s <> None /\ worker s <> WNone) ->
   gen_settle fuel p (gen_DEVSSimulator_end_replication false s) = do_end_repl fuel p s.
 Proof.
-  intros Hw. unfold gen_DEVSSimulator_end_replication, gen_Simulator_end_replication, do_end_repl. unf_py.
-  rewrite opt_end_eq.
-  destruct (ps s) eqn:Eps; cbn [py_replst_eqb negb]; try reflexivity.
+  intros Hw. unfold gen_DEVSSimulator_end_replication, gen_Simulator_end_replication, do_end_repl, end_time. unf_py. cbv zeta.
+  destruct (ps s) eqn:Eps; bsimpl; try reflexivity.
   destruct (Hw eq_refl) as [Hr Hk].
-  destruct (rep s) as [rp|] eqn:Er; [|contradiction]. cbn [negb].
+  destruct (rep s) as [rp|] eqn:Er; [|contradiction]. cbn [py_opt_end]. bsimpl.
   assert (Hk' : forall x, worker x = worker s -> (match worker x with WNone => true | _ => false end) = false)
     by (intros x ->; destruct (worker s); [contradiction|reflexivity|reflexivity]).
-  destruct (clock s <? end_time s); ssimpl; rewrite Hk' by reflexivity; cbn [negb gen_settle];
+  znorm; zcases; ssimpl; rewrite ?Hk' by reflexivity; bsimpl; cbn [gen_settle]; ssimpl;
     (rewrite gen_worker_eq by (ssimpl; congruence)); reflexivity.
 Qed.
 
@@ -407,15 +395,6 @@ Proof.
     destruct F; ssimpl; auto.
 Qed.
 
-Theorem gen_check_initialize_eq w s m r :
-  gen_Simulator__check_initialize w s m r =
-  if py_model_is_model m && py_model_has_simulator m && py_repl_is_repl r && negb (running s)
-  then GRet RNone w s else GExc EDSOL w s.
-Proof.
-  unfold gen_Simulator__check_initialize. rewrite gen_is_starting_or_running_eq.
-  destruct (py_model_is_model m), (py_model_has_simulator m), (py_repl_is_repl r), (running s); reflexivity.
-Qed.
-
 (* Simulator.initialize on a simulator that is not running, with a proper model and replication *)
 Definition initialized (p : program) (s : sim) (r : repl) : sim :=
   let s1 := match worker s with WNone => s | _ => do_cleanup s end in
@@ -424,13 +403,10 @@ Definition initialized (p : program) (s : sim) (r : repl) : sim :=
 Lemma gen_base_initialize_eq p w s r : running s = false ->
   gen_Simulator_initialize p w s ModelOk (ReplOk r) = GRet RNone false (initialized p s r).
 Proof.
-  intros Hrun. unfold gen_Simulator_initialize, initialized. rewrite gen_check_initialize_eq, Hrun.
-  cbn [py_model_is_model py_model_has_simulator py_repl_is_repl andb negb gbind py_repl py_is_some py_opt_start].
-  unfold py_worker_is_none.
-  destruct (worker s) eqn:Ew; cbn [negb].
-  - rewrite py_construct_model_eq. reflexivity.
-  - rewrite gen_cleanup_eq. cbn [gbind]. rewrite py_construct_model_eq. reflexivity.
-  - rewrite gen_cleanup_eq. cbn [gbind]. rewrite py_construct_model_eq. reflexivity.
+  intros Hrun. unfold gen_Simulator_initialize, initialized. ntests. rewrite ?Hrun. unf_py. cbv zeta.
+  cbn [py_model_is_model py_model_has_simulator py_repl_is_repl py_repl py_opt_start]. bsimpl.
+  destruct (worker s) eqn:Ew; bsimpl; rewrite ?gen_cleanup_eq; rewrite ?py_construct_model_eq; cbn [gbind];
+    rewrite ?py_construct_model_eq; reflexivity.
 Qed.
 
 Lemma do_init_unfold p s r :
@@ -459,38 +435,37 @@ Theorem gen_initialize_eq p s r :
   | GExc _ _ s1 => (raise_flag s1, ResRefused)
   end = do_init p s r.
 Proof.
-  unfold gen_DEVSSimulator_initialize. rewrite gen_check_initialize_eq, do_init_unfold.
-  cbn [py_model_is_model py_model_has_simulator py_repl_is_repl andb].
-  destruct (running s) eqn:Hrun; cbn [negb gbind]; [reflexivity|].
+  unfold gen_DEVSSimulator_initialize. rewrite do_init_unfold. ntests.
+  cbn [py_model_is_model py_model_has_simulator py_repl_is_repl]. cbv zeta.
+  destruct (running s) eqn:Hrun; bsimpl; [reflexivity|].
   unfold py_eventlist_clear.
   rewrite gen_base_initialize_eq by (ssimpl; exact Hrun). cbn [gbind]. cbv zeta.
   set (s5 := initialized p (set_pend [] s) r).
   assert (Hrep : rep s5 = Some r) by apply initialized_rep.
   unfold py_is_some. rewrite Hrep. cbn [negb py_opt_warm].
-  unfold gen_DEVSSimulator_schedule_event_abs. unf_py. rewrite Z.geb_leb, Z.ltb_antisym.
-  destruct (clock s5 <=? r_warm r) eqn:Ecmp; cbn [negb]; [|reflexivity].
-  rewrite gen_schedule_event_eq. cbn [ev_time]. ssimpl. rewrite Z.ltb_antisym, Ecmp. cbn [negb]. reflexivity.
+  unfold gen_DEVSSimulator_schedule_event_abs. unf_py. cbv zeta. rewrite ?gen_schedule_event_eq. cbn [ev_time]. ssimpl.
+  znorm; zcases; bsimpl; try reflexivity; try lia.
 Qed.
 
 Theorem gen_initialize_bad_eq fuel p s :
   gen_settle fuel p (gen_DEVSSimulator_initialize p false s ModelBad (ReplOk (mkRepl 0 0 40))) = (s, ResRefused).
 Proof.
-  unfold gen_DEVSSimulator_initialize. rewrite gen_check_initialize_eq. reflexivity.
+  unfold gen_DEVSSimulator_initialize. ntests. cbv zeta. cbn [py_model_is_model py_model_has_simulator py_repl_is_repl]. bsimpl.
+  reflexivity.
 Qed.
 
 (* a refused initialize -- whatever the reason -- leaves the simulator object as it was *)
 Theorem gen_refused_initialize_changes_nothing p w s m r k w' s' :
   gen_DEVSSimulator_initialize p w s m r = GExc k w' s' -> running s = true \/ m <> ModelOk \/ r = ReplBad -> s' = s.
 Proof.
-  unfold gen_DEVSSimulator_initialize. rewrite gen_check_initialize_eq. intros H Hc.
-  destruct (py_model_is_model m && py_model_has_simulator m && py_repl_is_repl r && negb (running s)) eqn:E.
-  - exfalso. apply andb_true_iff in E. destruct E as [E Er]. apply andb_true_iff in E. destruct E as [E Ep].
-    apply andb_true_iff in E. destruct E as [Em Es].
-    destruct Hc as [Hc|[Hc|Hc]].
-    + rewrite Hc in Er. discriminate.
-    + destruct m; try contradiction; discriminate.
-    + subst r. discriminate.
-  - cbn [gbind] in H. inversion H. reflexivity.
+  unfold gen_DEVSSimulator_initialize. ntests. cbv zeta. intros H Hc.
+  destruct Hc as [Hc|[Hc|Hc]].
+  - rewrite Hc in H. destruct m, r; cbn [py_model_is_model py_model_has_simulator py_repl_is_repl] in H; bsimpl;
+      inversion H; reflexivity.
+  - destruct m; try contradiction; destruct r; cbn [py_model_is_model py_model_has_simulator py_repl_is_repl] in H; bsimpl;
+      destruct (running s); bsimpl; inversion H; reflexivity.
+  - subst r. destruct m; cbn [py_model_is_model py_model_has_simulator py_repl_is_repl] in H; bsimpl;
+      destruct (running s); bsimpl; inversion H; reflexivity.
 Qed.
 
 (* ====================================================================== *)
